@@ -378,8 +378,11 @@ func (h *bufHooks) OnCall(c *engine.Ctx, instr ssa.Instruction, callee *ssa.Func
 		so, ok := args[0].(engine.SliceOf)
 		if ok {
 			prefix := bufPrefixOfSlice(so.Path)
-			s, mk, _, _, okb := readBuf(c.Heap, so.Obj, prefix)
+			s, mk, vuNow, _, okb := readBuf(c.Heap, so.Obj, prefix)
 			if okb {
+				// a zeroed index on a buffer that was not emptied makes the scan
+				// re-escape what is already valid
+				h.verdict(c, instr, "I4", vuNow != "zero?", "validUntil := 0 requires an empty buffer (otherwise library-placed markers would be escaped again)", s.String())
 				// C03.a: breakNewLines == (mode == Unsafe)
 				brk, known := constBool(args[2])
 				h.verdict(c, instr, "C03.a", known && brk == (s.Mode == 0),
@@ -467,7 +470,11 @@ func (h *bufHooks) onStore(c *engine.Ctx, instr ssa.Instruction, addr engine.Ptr
 			h.set(c, addr.Obj, prefix, "#dropped", "T")
 			h.set(c, addr.Obj, prefix, "#len0", "T")
 			h.set(c, addr.Obj, prefix, "#pending", "none")
-			h.set(c, addr.Obj, prefix, "#vu", "stale")
+			if vz, _ := constStr(c.Heap.Get(addr.Obj, joinPath(prefix, "#vz"))); vu == "zero?" || (vz == "T" && vu == "ok") {
+				h.set(c, addr.Obj, prefix, "#vu", "ok") // the index was zeroed just before: settled
+			} else {
+				h.set(c, addr.Obj, prefix, "#vu", "stale")
+			}
 			h.verdict(c, instr, "I5", !s.Open && mk == "", "buffer content dropped; requires no open envelope", cfg)
 		case engine.SliceOf:
 			_ = v
@@ -476,7 +483,11 @@ func (h *bufHooks) onStore(c *engine.Ctx, instr ssa.Instruction, addr engine.Ptr
 					if cst, isC := sl.High.(*ssa.Const); isC && cst.Value != nil && constant.Sign(cst.Value) == 0 {
 						h.set(c, addr.Obj, prefix, "#len0", "T")
 						h.set(c, addr.Obj, prefix, "#pending", "none")
-						h.set(c, addr.Obj, prefix, "#vu", "stale")
+						if vz, _ := constStr(c.Heap.Get(addr.Obj, joinPath(prefix, "#vz"))); vu == "zero?" || (vz == "T" && vu == "ok") {
+							h.set(c, addr.Obj, prefix, "#vu", "ok")
+						} else {
+							h.set(c, addr.Obj, prefix, "#vu", "stale")
+						}
 						h.set(c, addr.Obj, prefix, "#mk", "reset") // Reset must re-establish markerOpen
 						return
 					}
@@ -503,6 +514,9 @@ func (h *bufHooks) onStore(c *engine.Ctx, instr ssa.Instruction, addr engine.Ptr
 		}
 	case "validUntil":
 		h.set(c, addr.Obj, prefix, "#dirty", "T")
+		if n, isC := constInt(val); !isC || n != 0 {
+			h.set(c, addr.Obj, prefix, "#vz", "F")
+		}
 		switch v := val.(type) {
 		case engine.LenOf:
 			same := v.S.Obj == addr.Obj && bufPrefixOfSlice(v.S.Path) == prefix
@@ -512,8 +526,16 @@ func (h *bufHooks) onStore(c *engine.Ctx, instr ssa.Instruction, addr engine.Ptr
 			h.set(c, addr.Obj, prefix, "#vu", "ok")
 		default:
 			if n, isC := constInt(val); isC && n == 0 {
-				h.verdict(c, instr, "I4", s.Len0 == "T", "validUntil := 0 requires an empty buffer (otherwise library-placed markers would be escaped again)", cfg)
-				h.set(c, addr.Obj, prefix, "#vu", "ok")
+				h.set(c, addr.Obj, prefix, "#vz", "T") // the index is exactly 0
+				if s.Len0 == "T" {
+					h.verdict(c, instr, "I4", true, "validUntil := 0 requires an empty buffer (otherwise library-placed markers would be escaped again)", cfg)
+					h.set(c, addr.Obj, prefix, "#vu", "ok")
+				} else {
+					// the buffer may be emptied by the very next statements (the order
+					// of the resets in Reset/Take* is immaterial): owed until then; the
+					// exit invariant and every reader of the index require it settled
+					h.set(c, addr.Obj, prefix, "#vu", "zero?")
+				}
 			} else {
 				h.verdict(c, instr, "I4", false, "validUntil assigned from an unrecognised value", cfg)
 			}
